@@ -22,6 +22,11 @@ pub fn gen(seed: u64, tier: Tier) -> ScenarioSpec {
     if rng.chance(7, 10) {
         spec.live = Some(gen_live(&mut rng, len, 15));
     }
+    if spec.live.as_ref().map_or(true, |l| l.drop_at.is_none()) && rng.chance(1, 10) {
+        // the stream fails hard in the middle of the recording: what was completed before must be intact
+        spec.stream.hard_error_call = Some(rng.below(600) as u32);
+        spec.stream.hard_error_kind = rng.below(6) as u8;
+    }
     spec.knobs.insert("recheck_every".into(), *rng.pick(&[0i64, 0, 7, 50]));
     spec
 }
